@@ -102,9 +102,12 @@ class BitFlow:
             self.memo[key] = r
         return self.memo[key]
 
-    def analyse(self, fname, pidx, byte, bit, depth=0):
-        """-> dict(ret=mask of the returned value, stores=[inst ids], branches=[inst ids], calls=[inst ids])"""
-        key = (fname, pidx, byte, bit)
+    def analyse(self, fname, pidx, byte, bit, depth=0, objs=None):
+        """-> dict(ret=mask of the returned value, stores=[inst ids], branches=[inst ids], calls=[inst ids]).
+        objs: {parameter index: size} - other pointer parameters modelled like local arrays (per-byte cells, strong updates at
+        constant offsets), for functions that use their output buffer as the working copy (`unsigned char *t = q;`); the caller
+        asserts they do not alias the source buffer."""
+        key = (fname, pidx, byte, bit) if not objs else (fname, pidx, byte, bit, tuple(sorted(objs.items())))
         if key in self.memo:
             return self.memo[key]
         self.memo[key] = {"ret": 0, "stores": [], "branches": [], "calls": [], "loads": 0}     # recursion guard
@@ -113,7 +116,11 @@ class BitFlow:
             r = {"ret": -1, "stores": [], "branches": [], "calls": [-1], "loads": 0}
             self.memo[key] = r
             return r
-        r = _Run(self, f, pidx, byte, bit, depth).run()
+        run = _Run(self, f, pidx, byte, bit, depth)
+        for k, size in (objs or {}).items():
+            run.allocas[-(k + 1)] = size
+            run.pobj[k] = ("al", -(k + 1), 0)
+        r = run.run()
         self.memo[key] = r
         return r
 
@@ -128,6 +135,7 @@ class _Run:
         self.mask = {}
         self.base = {}      # SSA id -> ("p", off) pointer into the source buffer | ("al", alloca id, off or None)
         self.allocas = {i: ins.get("size", 0) for i, ins in enumerate(self.insts) if ins["op"] == "alloca"}
+        self.pobj = {}      # parameter index -> ("al", -(index + 1), 0): pointer parameters modelled as objects
         for i in self.allocas:
             self.base[i] = ("al", i, 0)
 
@@ -146,6 +154,8 @@ class _Run:
 
     def ptr(self, o):
         if o[0] == "a":
+            if o[1] in self.pobj:
+                return self.pobj[o[1]]
             return ("p", 0) if o[1] == self.pidx and self.byte is not None else None
         if o[0] == "v":
             return self.base.get(o[1])
